@@ -3,7 +3,7 @@
 from hypothesis import strategies as st
 
 from tv.core import Result
-from tv.cyc import Harness, step
+from tv.cyc import Harness, draw_second, second_fold, second_request, step
 from tv.phases import phased_history
 
 ID = "C26"
@@ -51,7 +51,8 @@ def strategy(draw, tier="quick"):
     hist = draw(phased_history(methods, PROFILES, 12, hi, first=("fill", "churn", "free")))
     # `order` is requested in (almost) every cycle; a per-case modulus leaves a few cycles without it
     order_skip = draw(st.integers(0, 9))
-    return {"entries": entries, "order_skip": order_skip, "history": hist}
+    second, mask = draw_second(draw, ["alloc", "free", "free_idx"])
+    return {"entries": entries, "order_skip": order_skip, "history": hist, "second": second, "second_mask": mask}
 
 
 def run_case(case) -> Result:
@@ -60,14 +61,17 @@ def run_case(case) -> Result:
     E = case["entries"]
     skip = case["order_skip"]
     res = Result(labels=[f"entries{E}"])
-    h = Harness(lambda: PreservedOrderAllocator(E))
+    second = case.get("second")
+    h = Harness(lambda: PreservedOrderAllocator(E), second_callers=(second,) if second else ())
+    if second:
+        res.labels.append("two_callers_of_" + second)
     flags = dict(
         mid_free_with_alloc=False, mid_free=False, alloc_full_refused=False, alloc_and_free=False, free_vs_free_idx=False,
         free_oldest=False, free_newest=False, clear=False, clear_with_ops=False, was_full=False, reuse=False,
     )
 
     async def tb(ctx):
-        ios = h.ios(["alloc", "free", "free_idx", "order", "clear"])
+        ios = h.ios(["alloc", "free", "free_idx", "order", "clear"] + ([second + "_b"] if second else []))
         lst = []  # allocated identifiers, oldest -> newest
         ever_freed = set()
         after_clear = False
@@ -89,8 +93,12 @@ def run_case(case) -> Result:
                 reqs["order"] = {}
             if rec.get("clear") is not None and rec["clear"][0] == 0:
                 reqs["clear"] = {}
+            second_request(case, reqs, cyc)
             results, _ = await step(ctx, ios, reqs)
             res.stats["cycles"] = res.stats.get("cycles", 0) + 1
+            msg = second_fold(case, reqs, results)
+            if msg:
+                return res.fail(f"cycle {cyc}: {msg}")
             where = f"cycle {cyc} (allocated oldest->newest {lst}, entries {E})"
             for nm, r in results.items():
                 if r is not None and nm not in reqs:
